@@ -66,7 +66,7 @@ type c16cfg struct {
 	spell  int // 0: absolute script path; 1: relative to base dir (cwd=base); 2: bare file name (cwd=script dir)
 }
 
-var c16dirs = []string{"w/t", "w/t/a", "w/t/a/b"}
+var c16dirs = []string{"w/t.v2", "w/t.v2/a", "w/t.v2/a/b"}
 var c16layoutNames = []string{"mod@t", "mod@t/a", "nomod"}
 var c16spellNames = []string{"abs", "rel", "bare"}
 
@@ -89,7 +89,7 @@ func (e *c16env) chdir(w *core.W, dir string) bool {
 
 func c16setup(w *core.W) *c16env {
 	b := filepath.Join(core.VerifDir, ".build", "run", "c16root")
-	if err := os.MkdirAll(filepath.Join(b, "w/t/a/b"), 0o755); err != nil {
+	if err := os.MkdirAll(filepath.Join(b, "w/t.v2/a/b"), 0o755); err != nil {
 		w.BrokenF("C16: cannot create %s: %v", b, err)
 		return nil
 	}
@@ -111,9 +111,9 @@ func (c c16cfg) scriptDir(e *c16env) string { return e.base + "/" + c16dirs[c.de
 func (c c16cfg) root(e *c16env) (string, bool) {
 	switch {
 	case c.layout == 0:
-		return e.base + "/w/t", true
+		return e.base + "/w/t.v2", true
 	case c.layout == 1 && c.depth >= 1:
-		return e.base + "/w/t/a", true
+		return e.base + "/w/t.v2/a", true
 	}
 	return c.scriptDir(e), false
 }
@@ -135,9 +135,9 @@ func (c c16cfg) newFs(e *c16env, cwd string) *c16util.RecFs {
 	}
 	switch c.layout {
 	case 0:
-		fs.Plant(e.base+"/w/t/go.mod", "module t\n")
+		fs.Plant(e.base+"/w/t.v2/go.mod", "module t\n")
 	case 1:
-		fs.Plant(e.base+"/w/t/a/go.mod", "module a\n")
+		fs.Plant(e.base+"/w/t.v2/a/go.mod", "module a\n")
 	}
 	return fs
 }
@@ -866,7 +866,7 @@ func c16partC(w *core.W, e *c16env) {
 			}
 		}
 	}
-	t := e.base + "/w/t"
+	t := e.base + "/w/t.v2"
 	for k, jb := range jobs {
 		if !w.Mine(k) {
 			continue
